@@ -232,6 +232,8 @@ class C07(Check):
         "render fails the run with 'harness binding lost' if the wrapper stops observing assigns)",
         "U <= L but OutputStreamLimitError in a template that writes into capture/ifchanged buffers is excluded as "
         "unspecified (docs do not say whether captured bytes count)",
+        "every render receives newly created str objects for its data (sys.getsizeof of a shared non-ASCII str grows "
+        "once its UTF-8 form is cached, e.g. by pickling), so the unlimited and the limited render measure alike",
         "warn mode is not run (same code path as lax plus warnings)",
     ]
 
